@@ -1,6 +1,7 @@
 package main
 
 import (
+	"bytes"
 	"encoding/json"
 	"errors"
 	"fmt"
@@ -138,7 +139,7 @@ func c20Unmarshal(data []byte) (id, mbeh int, set bool, err error) {
 		return id, mbeh, true, nil
 	case 1:
 		return id + 1000, mbeh, true, nil
-	case 2:
+	case 2, 10: // 10: an error, and a receiver of map or slice kind reset to an empty, non-nil container (see c20Emptied)
 		return 0, 0, false, errors.New(c20ErrText(id))
 	case 3:
 		return id, mbeh, true, errors.New(c20ErrText(id))
@@ -157,6 +158,11 @@ func c20Unmarshal(data []byte) (id, mbeh int, set bool, err error) {
 	}
 	panic(fmt.Sprintf("kaboom %d", id))
 }
+
+// c20Emptied: does the scripted data ask for unmarshal behaviour 10 (refuse, and leave an empty container that is
+// not nil behind, as an unmarshaler that starts with `*l = (*l)[:0]` or `*m = map...{}` does)? Read before
+// c20Unmarshal uses the bytes up.
+func c20Emptied(data []byte) bool { return bytes.HasPrefix(bytes.TrimLeft(data, " \n"), []byte("[10,")) }
 
 func (s SV) MarshalText() ([]byte, error)   { return c20Marshal(s.ID, s.MBeh) }
 func (s SV) MarshalBinary() ([]byte, error) { return c20Marshal(s.ID, s.MBeh) }
@@ -221,9 +227,13 @@ func (m c20Map) MarshalText() ([]byte, error)   { return c20Marshal(m["id"], m["
 func (m c20Map) MarshalBinary() ([]byte, error) { return c20Marshal(m["id"], m["mbeh"]) }
 func (m c20Map) MarshalJSON() ([]byte, error)   { return c20Marshal(m["id"], m["mbeh"]) }
 func (m *c20Map) unmarshal(data []byte) error {
+	emptied := c20Emptied(data)
 	id, mb, set, err := c20Unmarshal(data)
 	if set {
 		*m = c20Map{"id": id, "mbeh": mb}
+	}
+	if emptied {
+		*m = c20Map{}
 	}
 	return err
 }
@@ -241,9 +251,13 @@ func (l c20Slice) MarshalText() ([]byte, error)   { return c20Marshal(l.ids()) }
 func (l c20Slice) MarshalBinary() ([]byte, error) { return c20Marshal(l.ids()) }
 func (l c20Slice) MarshalJSON() ([]byte, error)   { return c20Marshal(l.ids()) }
 func (l *c20Slice) unmarshal(data []byte) error {
+	emptied := c20Emptied(data)
 	id, mb, set, err := c20Unmarshal(data)
 	if set {
 		*l = c20Slice{id, mb}
+	}
+	if emptied {
+		*l = make(c20Slice, 0, 4)
 	}
 	return err
 }
@@ -319,7 +333,7 @@ type c20Spec struct {
 	Constraint int  // 0 both, 1 OnlyMarshal, 2 OnlyUnmarshal
 	ID         int  // payload identity
 	MBeh       int  // 0..6 (see c20Marshal)
-	UBeh       int  // 0..8 (see c20Unmarshal)
+	UBeh       int  // 0..10 (see c20Unmarshal)
 	DataRight  bool // marshal: expected Data equals the marshaler's output
 	ValueRight bool // unmarshal: expected Value equals what the unmarshaler sets for behaviour 0
 	ErrKind    int  // 0 none, 1 AnyError, 2 Error(exact), 3 Error(other), 4 prefix hit, 5 prefix miss, 6 suffix hit, 7 suffix miss, 8 match hit, 9 match miss, 10 invalid pattern, 11 hand-written, content with anything
@@ -489,7 +503,7 @@ func c20JudgeCase(s c20Spec, marshalDir bool) (applicable bool, j c20Judgement) 
 			rightResult = (s.MBeh == 7 || s.MBeh == 8) && s.EmptyData && s.Constraint == 1
 		}
 	} else {
-		panics, hasErr, hasResult = s.UBeh == 4 || s.UBeh == 6, s.UBeh == 2 || s.UBeh == 3 || s.UBeh == 5 || s.UBeh == 8, s.UBeh == 0 || s.UBeh == 1 || s.UBeh == 3 || s.UBeh == 7
+		panics, hasErr, hasResult = s.UBeh == 4 || s.UBeh == 6, s.UBeh == 2 || s.UBeh == 3 || s.UBeh == 5 || s.UBeh == 8 || s.UBeh == 10, s.UBeh == 0 || s.UBeh == 1 || s.UBeh == 3 || s.UBeh == 7
 		rightResult = s.UBeh == 0 && s.ValueRight && !s.ZeroValue
 		if s.ZeroValue { // the expected value is the zero value: satisfied exactly by an unmarshaler that leaves the new receiver alone
 			rightResult = s.UBeh == 9
@@ -604,6 +618,12 @@ func (h c20TypeHelper[T]) AssertEmpty(t test.TestingT, value T, failInfo string)
 			return
 		}
 		v = v.Elem()
+	}
+	if v.Kind() == reflect.Map || v.Kind() == reflect.Slice { // empty is empty, nil or not
+		if v.Len() != 0 {
+			t.Errorf("not empty: %v (%s)", value, failInfo)
+		}
+		return
 	}
 	if !v.IsZero() {
 		t.Errorf("not empty: %v (%s)", value, failInfo)
@@ -904,6 +924,9 @@ func c20GenSpec(r *rt.Rand, id int) c20Spec {
 	case 0: // a case that expects an error and gets it
 		s.ErrKind = []int{1, 2, 4, 6, 8}[r.Intn(5)]
 		s.MBeh, s.UBeh = 1, 2
+		if r.Chance(1, 3) { // refused, and an empty container that is not nil left behind: still nothing alongside the error
+			s.UBeh = 10
+		}
 	case 1: // expects an error with an arbitrary predicate and arbitrary behaviour
 		s.ErrKind = 1 + r.Intn(11)
 		s.MBeh, s.UBeh = r.Intn(7), r.Intn(10)
@@ -951,7 +974,7 @@ func runC20(c *rt.Ctx) {
 	c.SetRule(fmt.Sprintf("%d seeded case lists of length 0..6 over scripted types (value type with pointer-receiver Unmarshal*, pointer type, type lacking the interfaces) whose Marshal*/Unmarshal* behave per the payload (right data, wrong data, a value that differs in one field only, error, wrapped error, non-nil error holding a nil pointer, error with data/value, panic); a type whose own Equal/Compare/String look at part of the value only; ", nLists) +
 		"cases vary constraint, expected data/value right or wrong, twelve error-predicate variants (AnyError, Error exact/other, prefix/suffix hit/miss, regexp hit/miss/invalid, a hand-written predicate content with any outcome), Before/After hooks (nil, pass, error, panic), nil pointer values, with and without a TypeHelper; each list is run whole and case by case through all six helpers with a recording TestingT whose FailNow does not unwind, inside a panic guard. " +
 		"distinct_nontrivial counts distinct (helper, type, list) runs (by hash) in which exactly one condition is unmet")
-	c.Assume("oracle is an independent re-statement of the helper contract (harness c20JudgeCase/c20JudgeList); testify's ObjectsAreEqual/Empty semantics are avoided by never generating empty payloads")
+	c.Assume("oracle is an independent re-statement of the helper contract (harness c20JudgeCase/c20JudgeList); testify's ObjectsAreEqual/Empty semantics are avoided by never generating empty payloads; a refused unmarshal that leaves an empty map or slice that is not nil behind counts as an empty result")
 	{
 		_, j1 := c20JudgeCase(c20Spec{ID: 1, DataRight: true, ValueRight: true}, true)
 		_, j2 := c20JudgeCase(c20Spec{ID: 1, DataRight: false, ValueRight: true}, true)
@@ -1001,6 +1024,9 @@ func runC20(c *rt.Ctx) {
 				}
 				if sp.MBeh == 6 || sp.UBeh == 8 {
 					w.ClassN("non-nil-error-holding-nil-pointer", 1)
+				}
+				if sp.UBeh == 10 && sp.Constraint != 1 && (typ == 8 || typ == 9) {
+					w.ClassN("empty-non-nil-container-alongside-expected-error", 1)
 				}
 			}
 			for helper := 0; helper < 6; helper++ {
@@ -1054,6 +1080,7 @@ func runC20(c *rt.Ctx) {
 	c.Require("asymmetric-type-helper-case", 200)
 	c.Require("loosely-self-comparing-type-with-partial-difference", 50)
 	c.Require("non-nil-error-holding-nil-pointer", 200)
+	c.Require("empty-non-nil-container-alongside-expected-error", 100)
 	for _, r := range []string{"before hook", "after hook", "missing error", "unmet error predicate", "non-empty result alongside an expected error", "unexpected error", "differing data or value", "type lacks the interface", "errormatch-valid-pattern-nonmatching-nonnil-error"} {
 		c.Require("single-unmet-condition:"+r, 50)
 	}
